@@ -1,10 +1,12 @@
 import Varlink
 import Driver.Proto
 import Driver.Cmds
+import Driver.CmdsGen
+import Driver.CmdsMisc
 open Driver
 
 /-- all command tables (one per `Driver/Cmds*.lean`) -/
-def allCommands : List (String × P String) := Driver.table
+def allCommands : List (String × P String) := Driver.table ++ Driver.Misc.table ++ Driver.Gen.table
 
 def runCmd : P String := do
   let c ← tok
